@@ -1,3 +1,100 @@
-"""Best-effort search for a concrete failing input on the real crate (filled in later)."""
-def search(repo, pid, violation):
-    return {"found": False, "reason": "no search family for this obligation"}
+"""Search for a concrete failing input on the real crate and replay it.
+
+Builds /verif/replay (a bounded differential tester with an independent rows-of-cells model)
+against the repository under test and runs the families that belong to the property.  This is NOT
+the deciding step (Verus/Kani are); it turns a failed obligation into a replayable input when one
+exists within the tool's bounds, and it is the tie-breaker when a proof failed only because a
+proof-hint anchor was lost.
+"""
+import hashlib
+import json
+import os
+import re
+import shutil
+import subprocess
+
+HERE = os.path.dirname(os.path.abspath(__file__))
+VERIF = os.path.dirname(HERE)
+SRC = os.path.join(VERIF, "replay")
+CACHE = os.path.join(VERIF, ".cache")
+
+FAMILIES = {
+    "C01": ["ctor", "insrem"], "C02": ["access"], "C03": ["views"],
+    "C04": ["views", "swapfill", "copy", "translate", "sort"],
+    "C05": ["insrem"], "C06": ["insrem"], "C07": ["insrem"],
+    "C08": ["rows"], "C09": ["cols"], "C10": ["cells"], "C11": ["panicsafe"], "C12": ["leak"],
+    "C13": ["swapfill"], "C14": ["copy"], "C15": ["translate"], "C16": ["sort"], "C17": ["sort"],
+    "C18": ["serde"], "C19": ["deser"], "C20": ["ctor"],
+}
+
+
+def build(repo, profile):
+    key = hashlib.sha256(os.path.abspath(repo).encode()).hexdigest()[:10]
+    work = os.path.join(CACHE, "replay-%s" % key)
+    os.makedirs(work, exist_ok=True)
+    # mirror the crate (sources only) and point it at the repository under test
+    for f in ("Cargo.toml", "Cargo.lock"):
+        shutil.copy(os.path.join(SRC, f), os.path.join(work, f))
+    dst = os.path.join(work, "src")
+    shutil.rmtree(dst, ignore_errors=True)
+    shutil.copytree(os.path.join(SRC, "src"), dst)
+    ct = open(os.path.join(work, "Cargo.toml")).read()
+    ct = ct.replace('path = "/repo"', 'path = "%s"' % os.path.abspath(repo))
+    open(os.path.join(work, "Cargo.toml"), "w").write(ct)
+    env = dict(os.environ)
+    env["CARGO_NET_OFFLINE"] = "true"
+    env["CARGO_TARGET_DIR"] = os.path.join(CACHE, "replay-target")
+    cmd = ["cargo", "build", "--offline", "-q"] + (["--release"] if profile == "release" else [])
+    p = subprocess.run(cmd, cwd=work, env=env, stdout=subprocess.PIPE, stderr=subprocess.STDOUT, universal_newlines=True, timeout=900)
+    if p.returncode != 0:
+        raise RuntimeError("replay crate does not build against %s: %s" % (repo, p.stdout[-600:]))
+    exe = os.path.join(CACHE, "replay-target", "release" if profile == "release" else "debug", "replay")
+    # the shared target dir is rebuilt for whichever repo was built last, so copy the binary out
+    out = os.path.join(work, "replay-%s" % profile)
+    shutil.copy(exe, out)
+    return out
+
+
+def run_family(exe, fam, max_cases=None, timeout=300):
+    cmd = [exe, "search", fam] + (["--max-cases", str(max_cases)] if max_cases else [])
+    try:
+        p = subprocess.run(cmd, stdout=subprocess.PIPE, stderr=subprocess.PIPE, universal_newlines=True, timeout=timeout)
+    except subprocess.TimeoutExpired:
+        return {"family": fam, "status": "timeout"}
+    for ln in p.stdout.split("\n"):
+        if ln.startswith("FAIL "):
+            return {"family": fam, "status": "fail", "case": ln[5:]}
+        if ln.startswith("OK "):
+            return {"family": fam, "status": "ok", "summary": ln}
+    return {"family": fam, "status": "error", "out": (p.stdout + p.stderr)[-400:]}
+
+
+def confirm(exe, case_json):
+    p = subprocess.run([exe, "run", case_json], stdout=subprocess.PIPE, stderr=subprocess.PIPE, universal_newlines=True, timeout=120)
+    return "REPLAY-CONFIRMED" in p.stdout, p.stdout.strip()[:2000]
+
+
+def search(repo, pid, violation=None):
+    fams = FAMILIES.get(pid, [])
+    tried = []
+    for profile in ("release", "debug"):
+        try:
+            exe = build(repo, profile)
+        except Exception as e:  # noqa
+            return {"found": False, "error": str(e), "tried": tried}
+        for fam in fams:
+            r = run_family(exe, fam)
+            tried.append({"profile": profile, "family": fam, "status": r["status"], "summary": r.get("summary")})
+            if r["status"] == "fail":
+                ok, transcript = confirm(exe, r["case"])
+                return {"found": True, "confirmed": ok, "profile": profile, "family": fam,
+                        "scenario": json.loads(r["case"]) if r["case"].startswith("{") else r["case"],
+                        "replay_transcript": transcript,
+                        "replay_cmd": "%s run '<scenario json>'  (crate built from %s, profile %s)" % (exe, repo, profile),
+                        "tried": tried}
+    return {"found": False, "tried": tried, "reason": "no failing input within the bounded families %s" % fams}
+
+
+if __name__ == "__main__":
+    import sys
+    print(json.dumps(search(os.environ.get("VERIF_REPO", "/repo"), sys.argv[1]), indent=1))
